@@ -9,8 +9,13 @@ forms them (`specsOf`): each a list of samples (wavelength `x`, working inverse 
 -/
 import PydlVerif.Lemmas.Combine
 import PydlVerif.Lemmas.CombineGroups
+import PydlVerif.Lemmas.CombineScale
+import PydlVerif.Lemmas.CombineConst
 import PydlVerif.Model.CombineFit
 import PydlVerif.Props.C09
+import PydlVerif.Props.C17
+import PydlVerif.Lemmas.IterFit
+import PydlVerif.Lemmas.RealTrig
 import Mathlib.Data.Rat.Floor
 namespace PydlVerif.C11
 open PydlVerif PydlVerif.Interp PydlVerif.Combine
@@ -1042,6 +1047,508 @@ theorem const_fit_data (Kn : Kernels K) (b : BS K) (xs ys ws : List K) (perm : L
 
 end c09
 
+/-! ### the scaling law carried through the group loop, the rejection loop of `iterfit` and `finish` (second extension round) -/
+
+section scaleFull
+open PydlVerif.CombineScale
+variable {K : Type} [Field K] [LinearOrder K] [IsStrictOrderedRing K] [FloorRing K]
+attribute [local instance] fieldScalar
+attribute [-instance] Scalar.instOfNat Scalar.instOfScientific
+
+theorem specsOf_scale (c : K) (oneD : Bool) (nspec ncol : Nat) (x iv : List K) (fcm : List Bool) :
+    specsOf oneD nspec ncol x (iv.map (· / c ^ 2)) fcm = (specsOf oneD nspec ncol x iv fcm).map (scaleIv (c ^ 2)⁻¹) := by
+  unfold specsOf scaleIv
+  simp only [List.map_map]
+  apply List.map_congr_left
+  intro idx _
+  simp only [Function.comp, List.map_map]
+  apply List.map_congr_left
+  intro i _
+  simp only [Function.comp]
+  rw [getD_map0' (fun v => v / c ^ 2) (zero_div _), div_eq_inv_mul]
+
+theorem rawIvar_scale (c : K) (specs : List (List (Samp K))) (newx : List K) (mask : List Bool) :
+    rawIvar (specs.map (scaleIv (c ^ 2)⁻¹)) newx mask = (rawIvar specs newx mask).map (· / c ^ 2) := by
+  unfold rawIvar
+  rw [List.map_map]
+  apply List.map_congr_left
+  intro p _
+  rw [Function.comp, newivar_scale, inv_mul_eq_div]
+
+/-- **`finish` is scale equivariant** (inverse variance, growth, scrub, aesthetics) on a loop state whose `newflux` is multiplied by `c`
+and whose working inverse variance is divided by `c²` - provided the bad-region test `|smooth(newivar,3)| < EPS` (an ABSOLUTE
+threshold in the code) answers alike (`GrowStable`), the field has no non-finite values (`hcl`), and numpy's `mean` is homogeneous -/
+theorem finish_scale (c : K) (hc : 0 < c) (mean : List K → K) (hmean : ∀ l, mean (l.map (c * ·)) = c * mean l) (erf : K → K)
+    (classify : K → Val K) (hcl : ∀ v, isFin classify v = true) (oneD : Bool) (nspec ncol : Nat) (x newx : List K) (m : Method)
+    (st : St K) (hs : st.ivar.isSome) (hg : GrowStable c (rawOf oneD nspec ncol x newx st)) :
+    finish mean erf classify oneD nspec ncol x newx m (scaleSt c st) =
+      (finish mean erf classify oneD nspec ncol x newx m st).map (fun fv => (fv.1.map (c * ·), fv.2.map (· / c ^ 2))) := by
+  obtain ⟨iv, hiv⟩ := Option.isSome_iff_exists.1 hs
+  have hp : finishPairs classify oneD nspec ncol x newx (scaleSt c st) =
+      (finishPairs classify oneD nspec ncol x newx st).map (fun q => (c * q.1, q.2 / c ^ 2)) := by
+    unfold finishPairs
+    have e1 : (scaleSt c st).ivar = some (iv.map (· / c ^ 2)) := by unfold scaleSt; rw [hiv]; rfl
+    have e2 : (scaleSt c st).flux = st.flux.map (c * ·) := rfl
+    have e3 : (scaleSt c st).mask = st.mask := rfl
+    have e4 : (scaleSt c st).fcm = st.fcm := rfl
+    unfold rawOf at hg
+    rw [hiv] at hg
+    simp only [e1, e2, e3, e4, hiv, workIvar_scale c hc, specsOf_scale, rawIvar_scale]
+    rw [growBad_scale c _ hg, scrub_scale c classify hcl]
+  unfold finish
+  rw [hp]
+  simp only [List.map_map, Function.comp_def]
+  have h1 : (finishPairs classify oneD nspec ncol x newx st).map (fun q => c * q.1) =
+      ((finishPairs classify oneD nspec ncol x newx st).map (·.1)).map (c * ·) := by rw [List.map_map]; rfl
+  have h2 : (finishPairs classify oneD nspec ncol x newx st).map (fun q => q.2 / c ^ 2) =
+      ((finishPairs classify oneD nspec ncol x newx st).map (·.2)).map (· / c ^ 2) := by rw [List.map_map]; rfl
+  rw [h1, h2, aesthIf_scale c hc mean hmean]
+  cases aesthIf mean erf _ _ m with
+  | error e => rfl
+  | ok f => rfl
+
+/-- **scaling law of `combine1fiber`, any equivariant fit** (`objivar` given): the model's whole `combine1fiber` on
+`(c·flux, ivar/c²)` returns `(c·newflux, newivar/c²)` - and refuses exactly when it refuses `(flux, ivar)`.
+Hypotheses: `c > 0`; the fit parameter is scale equivariant (`FitScales`; `fitFull_scales`: the modelled `iterfit` is);
+the window median and numpy's `mean` are homogeneous; no non-finite values (exact field); and `hgrow`: for the state the group loop
+leaves, the ABSOLUTE bad-region threshold `|smooth(newivar,3)| < EPS` of the code answers alike before and after the scaling
+(`growStable_of_gap`: true when every smoothed raw inverse variance is 0 or at least `EPS·max(1, c²)`) - the code is NOT scale
+invariant without it. -/
+theorem combine1fiber_scale (fit : Nat → K → List K → List K → Option (List K) → Combine.R (Fit K)) (c : K) (hc : 0 < c)
+    (hfit : FitScales fit c) (argsort : List K → List Nat) (med : List K → K)
+    (hmed : ∀ l, med (l.map (· / c ^ 2)) = med l / c ^ 2) (mean : List K → K) (hmean : ∀ l, mean (l.map (c * ·)) = c * mean l)
+    (erf : K → K) (classify : K → Val K) (hcl : ∀ v, isFin classify v = true)
+    (inp : Input K) (iv : List K) (hiv : inp.ivar = some iv)
+    (hgrow : ∀ oneD nspec ncol st, c1fLoop fit argsort med inp = .ok (some (oneD, nspec, ncol, st)) →
+      GrowStable c (rawOf oneD nspec ncol inp.x inp.newx st)) :
+    combine1fiber fit argsort med mean erf classify (scaleInput c inp) =
+      (combine1fiber fit argsort med mean erf classify inp).map (fun fv => (fv.1.map (c * ·), fv.2.map (· / c ^ 2))) := by
+  rw [combine1fiber_eq, combine1fiber_eq, c1fLoop_scale fit c hc hfit argsort med hmed inp iv hiv]
+  cases hL : c1fLoop fit argsort med inp with
+  | error e => rfl
+  | ok o =>
+    simp only [Except.map, bind, Except.bind]
+    cases o with
+    | none =>
+      simp only [scaleLoopOut, Option.map_none, c1fFinish, pure, Except.pure, List.map_replicate, z0, mul_zero, zero_div]
+      rfl
+    | some t =>
+      obtain ⟨oneD, nspec, ncol, st⟩ := t
+      have hs := c1fLoop_ivar_some fit argsort med inp iv hiv oneD nspec ncol st hL
+      simp only [scaleLoopOut, Option.map_some, c1fFinish]
+      exact finish_scale c hc mean hmean erf classify hcl oneD nspec ncol inp.x inp.newx inp.method st hs
+        (hgrow oneD nspec ncol st hL)
+
+/-- the modelled `iterfit` behind the `fit` parameter is scale equivariant (Lemmas/CombineScaleFit.lean) -/
+theorem fitFull_scales (Kn : BSplineFit.Kernels K) (c : K) (hc : 0 < c) (hK : KernelScale Kn c) (r32 : K → K) (var : List K → K)
+    (argsortG : List K → List Nat) : FitScales (fitFull Kn r32 var argsortG) c :=
+  fun k bk gx gy giv => fitFull_scale Kn c hc hK r32 var argsortG k bk gx gy giv
+
+/-- **`newflux` scaling through the group loop AND the ten-pass rejection loop of `iterfit`** (no condition on the data): for the model's
+`combine1fiber` with the fit instantiated by the modelled `iterfit` (`combine1fiberFull`), `(flux, ivar) ↦ (c·flux, ivar/c²)`, `c > 0`,
+leads to the same refusals and the same groups, and the state the group loop leaves has `newflux` multiplied by `c`, the working inverse variance
+divided by `c²`, the SAME `newmask` and `fullcombmask`.  What the rejection step needs is exactly `KernelScale.sqrt`:
+`(c·y - c·yfit)·sqrt(ivar/c²) = (y - yfit)·sqrt(ivar)` (`reject_scale_invariant`); the LAPACK pair has to be homogeneous
+(`KernelScale.chol/solve`), everything else is followed through the code. -/
+theorem newflux_scale (Kn : BSplineFit.Kernels K) (c : K) (hc : 0 < c) (hK : KernelScale Kn c) (r32 : K → K) (var : List K → K)
+    (argsortG argsort : List K → List Nat) (med : List K → K) (hmed : ∀ l, med (l.map (· / c ^ 2)) = med l / c ^ 2)
+    (inp : Input K) (iv : List K) (hiv : inp.ivar = some iv) :
+    c1fLoop (fitFull Kn r32 var argsortG) argsort med (scaleInput c inp) =
+      (c1fLoop (fitFull Kn r32 var argsortG) argsort med inp).map (scaleLoopOut c) :=
+  c1fLoop_scale _ c hc (fitFull_scales Kn c hc hK r32 var argsortG) argsort med hmed inp iv hiv
+
+/-- **scaling law of the whole function with the modelled `iterfit`**: `combine1fiberFull` on `(c·flux, ivar/c²)` returns
+`(c·newflux, newivar/c²)` and refuses alike, under the kernel contract `KernelScale` and the growth condition `hgrow` of
+`combine1fiber_scale` -/
+theorem combine1fiberFull_scale (Kn : BSplineFit.Kernels K) (c : K) (hc : 0 < c) (hK : KernelScale Kn c) (r32 : K → K) (var : List K → K)
+    (argsortG argsort : List K → List Nat) (med : List K → K) (hmed : ∀ l, med (l.map (· / c ^ 2)) = med l / c ^ 2)
+    (mean : List K → K) (hmean : ∀ l, mean (l.map (c * ·)) = c * mean l) (erf : K → K) (classify : K → Val K)
+    (hcl : ∀ v, isFin classify v = true) (inp : Input K) (iv : List K) (hiv : inp.ivar = some iv)
+    (hgrow : ∀ oneD nspec ncol st, c1fLoop (fitFull Kn r32 var argsortG) argsort med inp = .ok (some (oneD, nspec, ncol, st)) →
+      GrowStable c (rawOf oneD nspec ncol inp.x inp.newx st)) :
+    combine1fiberFull Kn r32 var argsortG argsort med mean erf classify (scaleInput c inp) =
+      (combine1fiberFull Kn r32 var argsortG argsort med mean erf classify inp).map
+        (fun fv => (fv.1.map (c * ·), fv.2.map (· / c ^ 2))) :=
+  combine1fiber_scale _ c hc (fitFull_scales Kn c hc hK r32 var argsortG) argsort med hmed mean hmean erf classify hcl inp iv hiv hgrow
+
+/-- the statement in the words of the property: whenever the function returns `(newflux, newivar)` … -/
+theorem combine1fiberFull_scale_ok (Kn : BSplineFit.Kernels K) (c : K) (hc : 0 < c) (hK : KernelScale Kn c) (r32 : K → K) (var : List K → K)
+    (argsortG argsort : List K → List Nat) (med : List K → K) (hmed : ∀ l, med (l.map (· / c ^ 2)) = med l / c ^ 2)
+    (mean : List K → K) (hmean : ∀ l, mean (l.map (c * ·)) = c * mean l) (erf : K → K) (classify : K → Val K)
+    (hcl : ∀ v, isFin classify v = true) (inp : Input K) (iv : List K) (hiv : inp.ivar = some iv)
+    (hgrow : ∀ oneD nspec ncol st, c1fLoop (fitFull Kn r32 var argsortG) argsort med inp = .ok (some (oneD, nspec, ncol, st)) →
+      GrowStable c (rawOf oneD nspec ncol inp.x inp.newx st))
+    (newflux newivar : List K)
+    (h : combine1fiberFull Kn r32 var argsortG argsort med mean erf classify inp = .ok (newflux, newivar)) :
+    combine1fiberFull Kn r32 var argsortG argsort med mean erf classify (scaleInput c inp) =
+      .ok (newflux.map (c * ·), newivar.map (· / c ^ 2)) := by
+  rw [combine1fiberFull_scale Kn c hc hK r32 var argsortG argsort med hmed mean hmean erf classify hcl inp iv hiv hgrow, h]
+  rfl
+
+/-- **the rejection test of `djs_reject` is scale invariant** (what the rejection step needs): with `sqrt(v/c²) = sqrt(v)/c` the working
+array `badness` of a pixel is the same for `(c·data, c·model, invvar/c²)` as for `(data, model, invvar)` -/
+theorem reject_scale_invariant (sqrt : K → K) (c : K) (hc : 0 < c) (hs : ∀ v, sqrt (v / c ^ 2) = sqrt v / c)
+    (o : Reject.Opts K) (hu : o.useSigma = false) (hd : o.maxdev = none) (d m s : K) (i p : Bool) :
+    Reject.badness sqrt o ⟨c * d, c * m, s / c ^ 2, i, p⟩ = Reject.badness sqrt o ⟨d, m, s, i, p⟩ :=
+  badness_scale sqrt c hc hs o hu hd d m s i p
+
+/-- **`iterfit` with `requiren` and the degenerate branch, all passes of the rejection loop, is scale equivariant** -/
+theorem iterfit_scale (Kn : BSplineFit.Kernels K) (c : K) (hc : 0 < c) (hK : KernelScale Kn c) (r32 : K → K) (var : List K → K)
+    (p : IterFit.Params K) (rq : Option Nat) (xs ys ivs : List K) (perm : List Nat) :
+    iterfitRq Kn r32 var p rq xs (ys.map (c * ·)) (some (ivs.map (· / c ^ 2))) perm =
+      (iterfitRq Kn r32 var p rq xs ys (some ivs) perm).map (scaleRqOut c) :=
+  iterfitRq_scale Kn c hc hK r32 var p rq xs ys ivs perm
+
+/-- **`bspline.fit` is scale equivariant** (same branch, status, breakpoint mask; `c` times the coefficients and fitted values) -/
+theorem fit_scale_equivariant (Kn : BSplineFit.Kernels K) (c : K) (hc : 0 < c) (hK : KernelScale Kn c) (b : BSpline.BS K)
+    (xs ys ws : List K) (perm : List Nat) :
+    BSplineFit.fit Kn (scaleBS c b) xs (ys.map (c * ·)) (ws.map (· / c ^ 2)) perm =
+      (BSplineFit.fit Kn b xs ys ws perm).map (scaleFitOut c) :=
+  fit_scale Kn c hc hK b xs ys ws perm
+
+end scaleFull
+
+/-! ### constant stays constant, through the group loop to the output (second extension round) -/
+
+section constFull
+open PydlVerif.CombineScale PydlVerif.CombineConst
+variable {K : Type} [Field K] [LinearOrder K] [IsStrictOrderedRing K] [FloorRing K]
+attribute [local instance] fieldScalar
+attribute [-instance] Scalar.instOfNat Scalar.instOfScientific
+
+theorem scatter_getD_mem {β : Type} (arr : List β) (idx : List Nat) (vals : List β) (p : Nat) (d : β)
+    (hp : p ∈ idx) (hlen : idx.length ≤ vals.length) (hpa : p < arr.length) : (scatter arr idx vals).getD p d ∈ vals := by
+  unfold scatter
+  have key : ∀ (l : List (Nat × β)) (arr : List β), (∀ q ∈ l, q.2 ∈ vals) → p < arr.length →
+      (arr.getD p d ∈ vals ∨ ∃ q ∈ l, q.1 = p) →
+      (l.foldl (fun a (iv : Nat × β) => a.set iv.1 iv.2) arr).getD p d ∈ vals := by
+    intro l
+    induction l with
+    | nil =>
+      intro arr _ _ h
+      rcases h with h | ⟨q, hq, _⟩
+      · exact h
+      · cases hq
+    | cons q l ih =>
+      intro arr hv hpa h
+      simp only [List.foldl_cons]
+      apply ih _ (fun q' hq' => hv q' (List.mem_cons_of_mem _ hq')) (by rw [List.length_set]; exact hpa)
+      by_cases hqp : q.1 = p
+      · left
+        rw [List.getD_eq_getElem?_getD, hqp, List.getElem?_set_self hpa]
+        exact hv q List.mem_cons_self
+      · rcases h with h | ⟨q', hq', e⟩
+        · left
+          rw [List.getD_eq_getElem?_getD, List.getElem?_set_ne hqp, ← List.getD_eq_getElem?_getD]
+          exact h
+        · rcases List.mem_cons.1 hq' with rfl | hq'
+          · exact absurd e hqp
+          · right; exact ⟨q', hq', e⟩
+  apply key _ arr (fun q hq => (List.of_mem_zip hq).2) hpa
+  right
+  obtain ⟨j, hj, rfl⟩ := List.getElem_of_mem hp
+  exact ⟨(idx[j], vals[j]'(by omega)), by
+    rw [List.mem_iff_getElem]
+    exact ⟨j, by simp only [List.length_zip]; omega, by simp⟩, rfl⟩
+
+theorem scatterConst_getD_true (m : List Bool) (idx : List Nat) (p : Nat)
+    (h : (scatterConst m idx true).getD p false = true) : m.getD p false = true ∨ p ∈ idx := by
+  unfold scatterConst at h
+  induction idx generalizing m with
+  | nil => exact Or.inl h
+  | cons i l ih =>
+    simp only [List.foldl_cons] at h
+    rcases ih _ h with h1 | h1
+    · by_cases hip : i = p
+      · right; rw [hip]; exact List.mem_cons_self
+      · left
+        rw [List.getD_eq_getElem?_getD, List.getElem?_set_ne hip, ← List.getD_eq_getElem?_getD] at h1
+        exact h1
+    · right; exact List.mem_cons_of_mem _ h1
+
+theorem select_subset {β : Type} (idx : List β) (sel : List Bool) : ∀ a ∈ select idx sel, a ∈ idx := by
+  intro a ha
+  unfold select at ha
+  obtain ⟨q, hq, rfl⟩ := List.mem_map.1 ha
+  exact (List.of_mem_zip (List.mem_filter.1 hq).1).1
+
+theorem mem_insideOf (newx : List K) (lo hi : K) : ∀ p ∈ insideOf newx lo hi, p < newx.length := by
+  intro p hp
+  unfold insideOf at hp
+  exact List.mem_range.1 (List.mem_filter.1 hp).1
+
+/-- invariant of the group loop on a constant spectrum: every output pixel whose `newmask` is set holds the constant -/
+def FluxInv (v : K) (n : Nat) (st : St K) : Prop :=
+  st.flux.length = n ∧ ∀ p, st.mask.getD p false = true → st.flux.getD p 0 = v
+
+theorem groupStep_const (fit : Nat → K → List K → List K → Option (List K) → Combine.R (Fit K)) (v : K)
+    (hfit : FitConstData fit v) (bk : K) (x y newx : List K) (st st' : St K) (k : Nat) (ss : List Nat)
+    (hy : ∀ i ∈ ss, y.getD i 0 = v) (hx : (ss.map (fun i => x.getD i 0)).Pairwise (· ≠ ·)) (hinv : FluxInv v newx.length st)
+    (h : groupStep fit bk x y newx st k ss = .ok st') : FluxInv v newx.length st' := by
+  rw [groupStep_eq] at h
+  have hgx : (ss.map (fun i => x.getD i (@OfNat.ofNat K (nat_lit 0) Scalar.instOfNat))).Pairwise (· ≠ ·) := by
+    simp only [z0]; exact hx
+  have hgy : ∀ u ∈ ss.map (fun i => y.getD i (@OfNat.ofNat K (nat_lit 0) Scalar.instOfNat)), u = v := by
+    intro u hu
+    obtain ⟨i, hi, rfl⟩ := List.mem_map.1 hu
+    rw [z0]; exact hy i hi
+  generalize hF : fitOf fit k bk _ _ _ ss.length = F at h
+  cases F with
+  | error e => cases h
+  | ok fb =>
+    simp only [bind, Except.bind] at h
+    -- what the fit answered
+    have hfb : fb.1 = none ∨ ∃ f, fb.1 = some f ∧
+        fit k bk (ss.map (fun i => x.getD i (@OfNat.ofNat K (nat_lit 0) Scalar.instOfNat)))
+          (ss.map (fun i => y.getD i (@OfNat.ofNat K (nat_lit 0) Scalar.instOfNat)))
+          (st.ivar.map fun iv => ss.map (fun i => iv.getD i (@OfNat.ofNat K (nat_lit 0) Scalar.instOfNat))) = .ok f ∧
+        coeffZero f.coeffs = false := by
+      unfold fitOf at hF
+      split at hF
+      · cases hfc : fit k bk (ss.map (fun i => x.getD i (@OfNat.ofNat K (nat_lit 0) Scalar.instOfNat)))
+            (ss.map (fun i => y.getD i (@OfNat.ofNat K (nat_lit 0) Scalar.instOfNat)))
+            (st.ivar.map fun iv => ss.map (fun i => iv.getD i (@OfNat.ofNat K (nat_lit 0) Scalar.instOfNat))) with
+        | error e => rw [hfc] at hF; cases hF
+        | ok f =>
+          rw [hfc] at hF
+          simp only [bind, Except.bind] at hF
+          split at hF
+          · cases hF; exact Or.inl rfl
+          · rename_i hz
+            cases hF
+            exact Or.inr ⟨f, rfl, rfl, by simpa using hz⟩
+      · cases hF; exact Or.inl rfl
+    obtain ⟨hl, hm⟩ := hinv
+    unfold afterFit at h
+    split at h
+    · cases h
+    · rename_i g0 gr _
+      rcases hfb with hn | ⟨f, hsome, hfc, hz⟩
+      · rw [hn] at h
+        cases h
+        exact ⟨hl, hm⟩
+      · rw [hsome] at h
+        simp only [] at h
+        split at h
+        · cases h
+          exact ⟨hl, hm⟩
+        · split at h
+          · cases h
+          · rename_i vv hval
+            cases h
+            obtain ⟨hvl, hvv⟩ := hfit k bk _ _ _ f hgx hgy hfc hz _ vv.1 vv.2 hval
+            rw [List.length_map] at hvl
+            refine ⟨by simp only [scatter_length]; exact hl, fun p hp => ?_⟩
+            simp only [] at hp ⊢
+            by_cases hin : p ∈ insideOf newx (lmin g0 gr) (lmax g0 gr)
+            · have hpl : p < st.flux.length := by rw [hl]; exact mem_insideOf newx _ _ p hin
+              exact hvv _ (scatter_getD_mem st.flux _ vv.1 p 0 hin (by omega) hpl)
+            · rw [scatter_getD_not_mem _ _ _ _ _ hin]
+              rcases scatterConst_getD_true _ _ p hp with h1 | h1
+              · exact hm p h1
+              · exact absurd (select_subset _ _ p h1) hin
+
+theorem groupLoop_const (fit : Nat → K → List K → List K → Option (List K) → Combine.R (Fit K)) (v : K)
+    (hfit : FitConstData fit v) (bk : K) (x y newx : List K) (groups : List (List Nat))
+    (hy : ∀ g ∈ groups, ∀ i ∈ g, y.getD i 0 = v) (hx : ∀ g ∈ groups, (g.map (fun i => x.getD i 0)).Pairwise (· ≠ ·))
+    (st st' : St K) (hinv : FluxInv v newx.length st)
+    (h : groupLoop fit bk x y newx st groups = .ok st') : FluxInv v newx.length st' := by
+  unfold groupLoop at h
+  refine foldlM_inv _ (FluxInv v newx.length) (fun s b s' hs hp => ?_) _ st st' h hinv
+  by_cases hb : b < groups.length
+  · have e : groups.getD b [] = groups[b] := by
+      rw [List.getD_eq_getElem?_getD, List.getElem?_eq_getElem hb, Option.getD_some]
+    rw [e] at hs
+    exact groupStep_const fit v hfit bk x y newx s s' b _ (hy _ (List.getElem_mem hb)) (hx _ (List.getElem_mem hb)) hp hs
+  · have e : groups.getD b [] = [] := by
+      rw [List.getD_eq_getElem?_getD, List.getElem?_eq_none (not_lt.1 hb), Option.getD_none]
+    rw [e] at hs
+    exact groupStep_const fit v hfit bk x y newx s s' b _ (fun i hi => by cases hi) (by simp) hp hs
+
+/-- `aesthetics` (traditional, noconst, mean, nothing) leaves every pixel of positive inverse variance as it is -/
+theorem aesthetics_keeps_pos (flux invvar : List K) (m : Method) (gm : K) (hlen : invvar.length = flux.length)
+    (hm : m = .traditional ∨ m = .noconst ∨ m = .mean ∨ m = .nothing) (out : List K)
+    (h : aesthetics flux invvar m gm = .ok out) (i : Nat) (hi : i < flux.length) (hpos : 0 < invvar.getD i 0) :
+    out.getD i 0 = flux.getD i 0 := by
+  have hi' : i < invvar.length := by omega
+  have hiv : invvar.getD i 0 = invvar[i] := by rw [List.getD_eq_getElem?_getD, List.getElem?_eq_getElem hi']; rfl
+  rw [hiv] at hpos
+  have hbl : (invvar.map Interp.isZeroI).length = flux.length := by simp [hlen]
+  have hbi : (invvar.map Interp.isZeroI)[i]'(by omega) = false := by
+    rw [List.getElem_map]
+    cases hz : Interp.isZeroI invvar[i] with
+    | true => exact absurd ((C17.interp_isZero_iff _).1 hz) (ne_of_gt hpos)
+    | false => rfl
+  have hfl : flux.getD i 0 = flux[i] := by rw [List.getD_eq_getElem?_getD, List.getElem?_eq_getElem hi]; rfl
+  have conv : ∀ o : List K, o[i]? = some flux[i] → o.getD i 0 = flux.getD i 0 := by
+    intro o ho
+    rw [List.getD_eq_getElem?_getD, ho, hfl]; rfl
+  unfold aesthetics at h
+  simp only [] at h
+  split at h
+  · rcases hm with rfl | rfl | rfl | rfl
+    · cases h; exact conv _ (C17.maskinterp_only_masked flux _ true hbl i hi hbi)
+    · cases h; exact conv _ (C17.maskinterp_only_masked flux _ false hbl i hi hbi)
+    · cases h
+      apply conv
+      have hz : (flux.zip invvar)[i]? = some (flux[i], invvar[i]) :=
+        List.getElem?_zip_eq_some.2 ⟨List.getElem?_eq_getElem hi, List.getElem?_eq_getElem hi'⟩
+      rw [List.getElem?_map, hz]
+      simp [hpos]
+    · cases h; exact conv _ (List.getElem?_eq_getElem hi)
+  · cases h; exact conv _ (List.getElem?_eq_getElem hi)
+
+/-- **constant stays constant - the whole `combine1fiber`** (any `fit` meeting `FitConstData`; 1-D or stacked input, with or
+without `objivar`; aesthetics `traditional`, `noconst`, `mean`, `nothing` - `damp` multiplies good pixels too): if every input
+pixel that takes part (`ivar > 0`) carries the flux `v`, then every output pixel with `newivar > 0` has `newflux = v` - through the
+grouping, the group loop, the inverse-variance pipeline, the growth, the scrub (exact field: nothing non-finite) and
+`aesthetics`.  `argsort` only has to return existing positions; `hdistinct`: the wavelengths inside a group are pairwise different (1-D input
+with increasing wavelengths, dithered exposures; NOT exposures on identical grids). -/
+theorem const_flux_const (fit : Nat → K → List K → List K → Option (List K) → Combine.R (Fit K)) (v : K)
+    (hfit : FitConstData fit v) (argsort : List K → List Nat) (hargsort : ∀ l, ∀ p ∈ argsort l, p < l.length)
+    (med mean : List K → K) (erf : K → K) (classify : K → Val K) (hcl : ∀ u, isFin classify u = true) (inp : Input K)
+    (hconst : ∀ i ∈ nonzeroOf inp, inp.flux.getD i 0 = v)
+    (hdistinct : ∀ maxsep groups, groupsOf inp.x (isortOf argsort inp) maxsep = .ok groups →
+      ∀ g ∈ groups, (g.map (fun i => inp.x.getD i 0)).Pairwise (· ≠ ·))
+    (hm : inp.method = .traditional ∨ inp.method = .noconst ∨ inp.method = .mean ∨ inp.method = .nothing)
+    (f w : List K) (h : combine1fiber fit argsort med mean erf classify inp = .ok (f, w)) :
+    ∀ p, 0 < w.getD p 0 → f.getD p 0 = v := by
+  intro p hpos
+  rw [combine1fiber_eq] at h
+  cases hL : c1fLoop fit argsort med inp with
+  | error e => rw [hL] at h; cases h
+  | ok o =>
+    rw [hL] at h
+    simp only [bind, Except.bind] at h
+    cases o with
+    | none =>
+      simp only [c1fFinish, pure, Except.pure, Except.ok.injEq, Prod.mk.injEq] at h
+      rw [← h.2, List.getD_eq_getElem?_getD] at hpos
+      by_cases hp : p < inp.newx.length
+      · rw [List.getElem?_replicate_of_lt hp, Option.getD_some, z0] at hpos
+        exact absurd hpos (lt_irrefl _)
+      · rw [List.getElem?_eq_none (by rw [List.length_replicate]; omega), Option.getD_none] at hpos
+        exact absurd hpos (lt_irrefl _)
+    | some t =>
+      obtain ⟨oneD, nspec, ncol, st⟩ := t
+      simp only [c1fFinish] at h
+      obtain ⟨bk, maxsep, groups, iv0, hG, hLoop⟩ := c1fLoop_some_spec fit argsort med inp oneD nspec ncol st hL
+      -- the pixels of every group are good pixels
+      have hgrp : ∀ g ∈ groups, ∀ i ∈ g, inp.flux.getD i 0 = v := by
+        intro g hg i hi
+        have hmem := groupsOf_mem inp.x _ maxsep groups hG g hg i hi
+        unfold isortOf at hmem
+        obtain ⟨q, hq, rfl⟩ := List.mem_map.1 hmem
+        have hql := hargsort _ q hq
+        rw [List.length_map] at hql
+        apply hconst
+        rw [List.getD_eq_getElem?_getD, List.getElem?_eq_getElem hql, Option.getD_some]
+        exact List.getElem_mem hql
+      have hinv0 : FluxInv v inp.newx.length (⟨List.replicate inp.newx.length (@OfNat.ofNat K (nat_lit 0) Scalar.instOfNat),
+          List.replicate inp.newx.length false, List.replicate inp.x.length false, iv0⟩ : St K) := by
+        refine ⟨List.length_replicate, fun q hq => ?_⟩
+        simp only [] at hq
+        rw [List.getD_eq_getElem?_getD] at hq
+        by_cases hql : q < inp.newx.length
+        · rw [List.getElem?_replicate_of_lt hql] at hq; cases hq
+        · rw [List.getElem?_eq_none (by rw [List.length_replicate]; omega)] at hq; cases hq
+      obtain ⟨hfl, hmask⟩ := groupLoop_const fit v hfit bk inp.x inp.flux inp.newx groups hgrp (hdistinct maxsep groups hG) _ st hinv0 hLoop
+      obtain ⟨hw, hae⟩ := finish_ok mean erf classify oneD nspec ncol inp.x inp.newx inp.method st f w h
+      set pairs := finishPairs classify oneD nspec ncol inp.x inp.newx st with hpairs
+      have hplen : pairs.length = inp.newx.length := by
+        rw [hpairs]; simp [finishPairs, scrub_length, growBad_length, rawIvar, hfl]
+      have hp : p < inp.newx.length := by
+        by_contra hlt
+        rw [hw, List.getD_eq_getElem?_getD, List.getElem?_eq_none (by rw [List.length_map, hplen]; omega), Option.getD_none] at hpos
+        exact absurd hpos (lt_irrefl _)
+      have hp2 : p < (pairs.map (·.2)).length := by rw [List.length_map, hplen]; exact hp
+      have hwp : w.getD p 0 = (pairs.map (·.2))[p] := by
+        rw [hw, List.getD_eq_getElem?_getD, List.getElem?_eq_getElem hp2]; rfl
+      -- the pixel's `newmask` is set
+      have hmk : st.mask.getD p false = true := by
+        rcases final_ivar_cases classify oneD nspec ncol inp.x inp.newx st p hp2 with h0 | h1
+        · rw [hwp, h0] at hpos; exact absurd hpos (lt_irrefl _)
+        · by_contra hmf
+          have hmf' : st.mask.getD p false = false := by simpa using hmf
+          rw [hwp, h1, newivar_zero_no_good _ _ _ (Or.inr hmf')] at hpos
+          exact absurd hpos (lt_irrefl _)
+      have hflux : st.flux.getD p 0 = v := hmask p hmk
+      -- the scrub keeps the pair
+      have hpre : (pairs.map (·.1)).getD p 0 = st.flux.getD p 0 := by
+        have hp1 : p < (pairs.map (·.1)).length := by rw [List.length_map, hplen]; exact hp
+        rw [List.getD_eq_getElem?_getD, List.getElem?_eq_getElem hp1, Option.getD_some]
+        simp only [hpairs, finishPairs, scrub, List.getElem_map, List.getElem_zipWith, hcl, Bool.and_self, if_true]
+        rw [List.getD_eq_getElem?_getD, List.getElem?_eq_getElem (by rw [hfl]; exact hp), Option.getD_some]
+      -- aesthetics
+      unfold aesthIf at hae
+      have hany : (pairs.map (·.2)).any (fun u => decide (u > (@OfNat.ofNat K (nat_lit 0) Scalar.instOfNat))) = true := by
+        rw [List.any_eq_true]
+        refine ⟨(pairs.map (·.2))[p], List.getElem_mem hp2, ?_⟩
+        rw [z0, ← hwp]
+        exact decide_eq_true hpos
+      rw [if_pos hany] at hae
+      unfold aesth at hae
+      have hpos' : 0 < (pairs.map (·.2)).getD p 0 := by
+        rw [List.getD_eq_getElem?_getD, List.getElem?_eq_getElem hp2, Option.getD_some, ← hwp]; exact hpos
+      have hlen2 : (pairs.map (·.2)).length = (pairs.map (·.1)).length := by simp
+      have hp1 : p < (pairs.map (·.1)).length := by rw [List.length_map, hplen]; exact hp
+      rcases hm with hm | hm | hm | hm <;> rw [hm] at hae <;> simp only [] at hae <;>
+        rw [aesthetics_keeps_pos _ _ _ _ hlen2 (by simp) f hae p hp1 hpos', hpre, hflux]
+
+/-- **rejection rejects nothing when the residuals are exactly 0**: `djs_reject` as `iterfit` calls it (`invvar` given, no `maxdev`,
+`grow = 0`, not sticky, `inmask = outmask =` the current mask) on a model that equals the data at every pixel the mask keeps returns
+the SAME mask and `qdone = True` - whatever `sqrt` is, whatever the weights and the limits -/
+theorem reject_keeps_exact (sqrt : K → K) (o : Reject.Opts K) (hu : o.useSigma = false) (hd : o.maxdev = none)
+    (hg : o.grow = 0) (hst : o.sticky = false) (data mdl sv : List K) (m : List Bool)
+    (hl1 : mdl.length = data.length) (hl2 : m.length = data.length) (hl3 : sv.length = data.length)
+    (hex : ∀ i, i < data.length → m.getD i true = true → mdl.getD i 0 = data.getD i 0) :
+    Reject.djsReject sqrt o data (some mdl) (some m) (some m) sv = .ok (m, true) :=
+  CombineConst.reject_keeps_exact sqrt o hu hd hg hst data mdl sv m hl1 hl2 hl3 hex
+
+/-- **constant stays constant - the whole function with the modelled `iterfit`** (`combine1fiberFull`): no contract on the fit is left.
+If every input pixel that takes part carries the flux `v`, every output pixel with `newivar > 0` has `newflux = v`.  Hypotheses about
+the kernel parameters only: `SolveUnique` (the LAPACK pair returns THE solution of a system it factored), `argsort` returns a sorting
+permutation (`hargsortG`, for the groups and inside `value`; `hargsort`: existing positions, for the pixels), the breakpoints placed for a
+group of pairwise different wavelengths (`hdistinct`) are strictly increasing (`hknots`), no non-finite values (exact field); aesthetics
+`traditional`, `noconst`, `mean`, `nothing`.  Through: grouping (`groups_partition`/`groupsOf_mem`), `requiren`, `maskpoints`, every pass of the
+rejection loop (`reject_keeps_exact`: nothing is rejected, the loop ends after the first status-0 fit), the degenerate branch, `value`, the
+inverse-variance pipeline, growth, scrub, `aesthetics`. -/
+theorem const_flux_const_full (Kn : BSplineFit.Kernels K) (hU : SolveUnique Kn) (r32 : K → K) (var : List K → K)
+    (argsortG argsort : List K → List Nat)
+    (hargsortG : ∀ l : List K, (argsortG l).Perm (List.range l.length) ∧ ((argsortG l).map (fun i => l.getD i 0)).Pairwise (· ≤ ·))
+    (hargsort : ∀ l, ∀ p ∈ argsort l, p < l.length)
+    (hknots : ∀ (bk : K) goodx knots, goodx.Pairwise (· < ·) → 3 ≤ goodx.length →
+      BSpline.mkKnots r32 goodx 3 (c1fParams bk).opts = .ok knots → knots.Pairwise (· < ·))
+    (med mean : List K → K) (erf : K → K) (classify : K → Val K) (hcl : ∀ u, isFin classify u = true) (inp : Input K) (v : K)
+    (hconst : ∀ i ∈ nonzeroOf inp, inp.flux.getD i 0 = v)
+    (hdistinct : ∀ maxsep groups, groupsOf inp.x (isortOf argsort inp) maxsep = .ok groups →
+      ∀ g ∈ groups, (g.map (fun i => inp.x.getD i 0)).Pairwise (· ≠ ·))
+    (hm : inp.method = .traditional ∨ inp.method = .noconst ∨ inp.method = .mean ∨ inp.method = .nothing)
+    (f w : List K) (h : combine1fiberFull Kn r32 var argsortG argsort med mean erf classify inp = .ok (f, w)) :
+    ∀ p, 0 < w.getD p 0 → f.getD p 0 = v :=
+  const_flux_const _ v (fitFull_const Kn hU r32 var argsortG hargsortG hknots v) argsort hargsort med mean erf classify hcl inp
+    hconst hdistinct hm f w h
+
+/-- **… in exact arithmetic the knot hypothesis is a theorem** (`r32 = id`: `mkKnots_strict`, the constructor's breakpoints on strictly
+increasing abscissae are strictly increasing): what is left assumed is the LAPACK contract `SolveUnique`, `argsort` = a sorting permutation,
+and that the wavelengths inside every group are pairwise different -/
+theorem const_flux_const_exact (Kn : BSplineFit.Kernels K) (hU : SolveUnique Kn) (var : List K → K)
+    (argsortG argsort : List K → List Nat)
+    (hargsortG : ∀ l : List K, (argsortG l).Perm (List.range l.length) ∧ ((argsortG l).map (fun i => l.getD i 0)).Pairwise (· ≤ ·))
+    (hargsort : ∀ l, ∀ p ∈ argsort l, p < l.length)
+    (med mean : List K → K) (erf : K → K) (classify : K → Val K) (hcl : ∀ u, isFin classify u = true) (inp : Input K) (v : K)
+    (hconst : ∀ i ∈ nonzeroOf inp, inp.flux.getD i 0 = v)
+    (hdistinct : ∀ maxsep groups, groupsOf inp.x (isortOf argsort inp) maxsep = .ok groups →
+      ∀ g ∈ groups, (g.map (fun i => inp.x.getD i 0)).Pairwise (· ≠ ·))
+    (hm : inp.method = .traditional ∨ inp.method = .noconst ∨ inp.method = .mean ∨ inp.method = .nothing)
+    (f w : List K) (h : combine1fiberFull Kn id var argsortG argsort med mean erf classify inp = .ok (f, w)) :
+    ∀ p, 0 < w.getD p 0 → f.getD p 0 = v :=
+  const_flux_const_full Kn hU id var argsortG argsort hargsortG hargsort
+    (fun bk goodx knots hs hl hk => mkKnots_strict bk goodx knots hs (by omega) hk)
+    med mean erf classify hcl inp v hconst hdistinct hm f w h
+
+end constFull
+
 /-! ### non-vacuity -/
 
 section examples
@@ -1089,5 +1596,107 @@ example : (∀ i : Fin 1, ∑ j : Fin 1, (fun _ _ => (1 : ℚ)) i j = 1) ∧
 example : (0 : ℚ) < 2 ∧ ([0, 1, 2] : List Nat) ≠ [] := ⟨by norm_num, by simp⟩
 
 end examples2
+
+section examples3
+open PydlVerif.CombineScale PydlVerif.CombineConst
+variable {K : Type} [Field K] [LinearOrder K] [IsStrictOrderedRing K] [FloorRing K]
+attribute [local instance] fieldScalar
+attribute [-instance] Scalar.instOfNat Scalar.instOfScientific
+
+/-- the hypothesis of `growStable_of_gap` (hence `hgrow` of the scaling theorems) is met by a concrete raw inverse variance: all ones,
+`c = 2` - every smoothed value is 1 ≥ EPS·4 -/
+example : ∀ v ∈ smooth3 ([1, 1, 1] : List K), v = 0 ∨ (eps ≤ |v| ∧ eps * (2 : K) ^ 2 ≤ |v|) := by
+  intro v hv
+  have h : smooth3 ([1, 1, 1] : List K) = [1, 1, 1] := by
+    simp only [smooth3, List.length_cons, List.length_nil, List.range_succ, List.range_zero, List.nil_append, List.cons_append,
+      List.map_cons, List.map_nil, scalar_sci]
+    norm_num
+  rw [h] at hv
+  simp only [List.mem_cons, List.mem_nil_iff, or_false, or_self] at hv
+  subst hv
+  right
+  rw [eps_eq]
+  norm_num
+
+/-- the fit "the first data value everywhere" (one coefficient): a fit that is used and meets both contracts -/
+noncomputable def firstValueFit (_k : Nat) (_bk : K) (_gx gy : List K) (_giv : Option (List K)) : Combine.R (Fit K) :=
+  .ok ⟨[gy.getD 0 0], fun xs => .ok (xs.map (fun _ => gy.getD 0 0), xs.map (fun _ => true)), gy.map (fun _ => true)⟩
+
+/-- `FitConstData` is satisfiable by a fit that is not trivial (its coefficient is the data value) -/
+example (v : K) : FitConstData (firstValueFit (K := K)) v := by
+  intro k bk gx gy giv F _ hgy hF hz xs vals vm hval
+  simp only [firstValueFit, Except.ok.injEq] at hF
+  subst hF
+  simp only [Except.ok.injEq, Prod.mk.injEq] at hval
+  obtain ⟨rfl, _⟩ := hval
+  refine ⟨by rw [List.length_map], ?_⟩
+  intro u hu
+  obtain ⟨_, _, rfl⟩ := List.mem_map.1 hu
+  cases gy with
+  | nil =>
+    exfalso
+    have : coeffZero ([([] : List K).getD 0 0]) = true := by
+      simp only [coeffZero, List.getD_nil, List.foldl_cons, List.foldl_nil, absS, z0, lt_irrefl, if_false, add_zero]
+      exact (scalar_beq _ _).2 rfl
+    rw [this] at hz
+    cases hz
+  | cons y0 ys =>
+    rw [List.getD_cons_zero]
+    exact hgy y0 List.mem_cons_self
+
+/-- … and it is scale equivariant -/
+example : FitScales (firstValueFit (K := K)) 2 := by
+  intro k bk gx gy giv
+  have h : (gy.map (fun x => (2 : K) * x)).getD 0 0 = 2 * gy.getD 0 0 := getD_map0 (fun x => (2 : K) * x) (mul_zero 2) gy 0
+  simp only [firstValueFit, Except.map, scaleFit, List.map_cons, List.map_nil, List.map_map, Function.comp_def, h]
+
+/-- `KernelScale` is satisfiable at `c = 2` over ℝ: the real square root, everything finite, a LAPACK factorisation that always
+fails (so that the modelled fallback loop of `cholesky_band` - the textbook Cholesky with `sqrt` - does the work) and a diagonal solve -/
+example : KernelScale (K := ℝ) ⟨Real.sqrt, fun _ => true, fun _ _ _ => none,
+    fun _ _ L b => b.mapIdx (fun i v => v / (BSplineFit.get2 L 0 i) ^ 2)⟩ 2 := by
+  refine ⟨?_, fun _ _ _ => rfl, fun _ _ _ => rfl, ?_⟩
+  · intro v
+    show Real.sqrt (v / 2 ^ 2) = Real.sqrt v / 2
+    rw [Real.sqrt_div' v (by norm_num), Real.sqrt_sq (by norm_num)]
+  · intro bw n L b
+    show (b.map ((2 : ℝ)⁻¹ * ·)).mapIdx (fun i v => v / (BSplineFit.get2 (sc2 (2 : ℝ)⁻¹ L) 0 i) ^ 2) =
+      (b.mapIdx (fun i v => v / (BSplineFit.get2 L 0 i) ^ 2)).map ((2 : ℝ) * ·)
+    apply Array.ext
+    · rw [Array.size_mapIdx, Array.size_map, Array.size_map, Array.size_mapIdx]
+    · intro i h1 h2
+      rw [Array.getElem_mapIdx, Array.getElem_map, Array.getElem_map, Array.getElem_mapIdx, get2_sc2, mul_pow, mul_div_mul_comm]
+      norm_num
+
+/-- `SolveUnique` is a contract that kernels can meet - trivially by kernels for which `cholesky_band` never reports a factor (nothing is
+finite); that LAPACK's `cholesky_banded`/`cho_solve_banded` meet it is assumed, like C09's `chol_contract`, and sampled by the harness
+(`|A x - b|` of every recorded fit) -/
+example : SolveUnique (K := K) ⟨fun v => v, fun _ => false, fun _ _ _ => none, fun _ _ _ b => b⟩ := by
+  intro b xs ys ws rows lower upper mininf a _ hch
+  exfalso
+  unfold BSplineFit.choleskyBand at hch
+  simp only [] at hch
+  split at hch
+  · cases hch
+  split at hch
+  · cases hch
+  rename_i hbw _
+  have hall : (BSplineFit.normalSystem rows ys ws lower upper xs.length b.nord (b.gb.size - b.nord)).1.all
+      (fun row => row.all (fun _ => false)) = false := by
+    rw [Array.all_eq_false']
+    have hsz : 0 < (BSplineFit.normalSystem rows ys ws lower upper xs.length b.nord (b.gb.size - b.nord)).1.size := by omega
+    refine ⟨_, Array.getElem_mem hsz, ?_⟩
+    have hrow : 0 < ((BSplineFit.normalSystem rows ys ws lower upper xs.length b.nord (b.gb.size - b.nord)).1[0]).size := by
+      have hn : 0 < b.nord := by
+        simp only [BSplineFit.normalSystem, List.size_toArray, List.length_map, List.length_range] at hsz
+        exact hsz
+      simp only [BSplineFit.normalSystem, List.getElem_toArray, List.getElem_map, List.size_toArray, List.length_map, List.length_range]
+      omega
+    simp only [Bool.not_eq_true, Array.all_eq_false']
+    exact ⟨_, Array.getElem_mem hrow, trivial⟩
+  rw [hall] at hch
+  simp only [Bool.not_false, Bool.or_true, if_true, pure, Except.pure, Except.ok.injEq] at hch
+  cases hch
+
+end examples3
 
 end PydlVerif.C11
